@@ -874,8 +874,19 @@ func (x *Exec) callMayWriteHeap(c *ssa.CallCommon) bool {
 		if x.P.InModule(fn) && fn.Blocks != nil {
 			return x.fnMayWriteHeap(fn, 0)
 		}
+	} else if x.isPureFuncValue(c.Value) {
+		return false
 	}
 	return true
+}
+
+// isPureFuncValue: a function value read from a field / variable declared with "purefunc".
+func (x *Exec) isPureFuncValue(v ssa.Value) bool {
+	src := x.describeFuncSource(v)
+	if i := strings.LastIndex(src, "."); i >= 0 {
+		src = src[i+1:]
+	}
+	return src != "" && x.CS.PureIface["purefunc:"+src]
 }
 
 var mayWriteCache = map[*ssa.Function]int{} // 1 no, 2 yes
@@ -937,6 +948,8 @@ func (x *Exec) callMayWriteHeapDepth(c *ssa.CallCommon, depth int) bool {
 		if x.P.InModule(fn) && fn.Blocks != nil {
 			return x.fnMayWriteHeap(fn, depth)
 		}
+	} else if x.isPureFuncValue(c.Value) {
+		return false
 	}
 	return true
 }
